@@ -1,7 +1,7 @@
 (* C02 -- Everything a session uploads is self-consistent and server-verifiable.  Statements only. *)
 From Coq Require Import NArith Bool List.
 Import ListNotations.
-From XetModel Require Import Base.Codec Gen.ShardLayout Gen.DedupFacts Model.Merkle Model.Shard Model.Dedup Proofs.PipelineProofs.
+From XetModel Require Import Base.Codec Gen.ShardLayout Gen.DedupFacts Model.Merkle Model.Shard Model.Dedup Proofs.PipelineProofs Proofs.ResolveProofs.
 Open Scope N_scope.
 
 (* the record finalize emits: hash = file hash, one verification entry per segment, entry i = range hash of the fed chunk
@@ -26,8 +26,18 @@ Proof. intros chs. repeat split. apply cas_entries_length. Qed.
 (* the SHA-256 of an empty file is the digest of the empty input (fact regenerated from ShaGenerator::finalize) *)
 Example C02_sha_of_empty_is_not_zero : sha_of_empty_input_is_zero = false.
 Proof. reflexivity. Qed.
-(* that every segment resolves to the fed chunks (ranges in bounds, sizes exact, file hash recomputable from the referenced
-   chunks) is the C01 invariant; it is checked on every generated session by the independent validator of stream sess and on
-   every scripted file by stream dd; its Coq proof is not part of this revision *)
+(* every file record of the session shard references existing xorbs with in-range chunk indices: a record that resolves
+   (C01_session_records_resolve, restated here) names, segment by segment, a xorb of the store and a range inside it *)
+Theorem C02_records_reference_existing_ranges : forall F segs cs, resolve_file F segs = Some cs ->
+  forall s, In s segs -> exists x, st_find F (sg_cas s) = Some x /\ sg_start s <= sg_end s /\ sg_end s <= N.of_nat (length (chunks_of x)).
+Proof. exact resolved_segments_in_range. Qed.
+Theorem C02_session_records_resolve : forall F U, StoreOk F U -> forall rc cf ops, Forall (op_ok F U) ops ->
+  (forall x, In x (s_uploaded (srun rc cf ops)) -> In x F) ->
+  DoneAll F (s_shard_files (srun rc cf ops)) (ghosts ops).
+Proof. intros F U H rc cf ops Hok Hup. exact (proj1 (proj2 (session_resolves F U H rc cf ops Hok Hup))). Qed.
+(* not proved: that the recorded segment byte counts equal the summed chunk lengths (checked by the independent validator of
+   stream sess on every generated session and by stream dd on every scripted file) *)
 
 Print Assumptions C02_record_shape.
+Print Assumptions C02_records_reference_existing_ranges.
+Print Assumptions C02_session_records_resolve.
